@@ -104,8 +104,15 @@ def _draw_rxn(draw, hs, want_mode=None, want_tuple=False, no_tuple=False):
         modes.append(2)
     mode = want_mode if want_mode is not None else draw(st.sampled_from(modes))
     plain = hs.plain_ok(mode)
-    tup = hs.tuple_ok() if ((mode == 0 or "deriv_mode2" in hs.allow) and not no_tuple) else []
+    tup = hs.tuple_ok() if not no_tuple else []
     tl = [[i, [o[0], o[1]]] for i, o in tup]
+    excluded = None
+    if mode == 2 and "deriv_mode2" not in hs.allow:
+        # excluded region (open finding K-C16-deriv-mode2): where the generator would have placed a derivative entry in
+        # an XC reaction it places a plain system instead and counts the exclusion
+        if tl and _pick(draw, 3) > 0:
+            excluded = "deriv_mode2"
+        tl = []
     cands = [p for p in plain] + tl
     # derivative entries are worth over-sampling when available
     if tl and (want_tuple or _pick(draw, 3) > 0):
@@ -126,6 +133,8 @@ def _draw_rxn(draw, hs, want_mode=None, want_tuple=False, no_tuple=False):
         u = G.DEFAULT_UNIT if r["unit"] is None else r["unit"]
         r["energy"] = draw(st.floats(-3.0, 3.0)) / u
     r.update(_noise_opts(draw))
+    if excluded:
+        r["excluded_known"] = excluded
     return r
 
 
@@ -155,7 +164,7 @@ def st_history(draw, gp2=False, big_ok=True, allow=(), force=None):
     nsys = draw(st.integers(2, 6))
     systems = []
     # three quarters of the data sets carry occupation-derivative data (two thirds of those for all systems)
-    deriv_ds = force.get("deriv_all", False) or ((not gp2) and _pick(draw, 4) > 0)
+    deriv_ds = force.get("deriv_all", False) or _pick(draw, 4) > 0
     deriv_all = force.get("deriv_all", False) or (deriv_ds and _pick(draw, 3) > 0)
     for i in range(nsys):
         big = big_ok and _pick(draw, 40) == 39
@@ -209,7 +218,7 @@ def st_history(draw, gp2=False, big_ok=True, allow=(), force=None):
         for i in draw(st.lists(st.integers(0, nsys - 1), min_size=1, max_size=2, unique=True)):
             pick.append([i, draw(st.lists(st.integers(0, 10 ** 6), min_size=3 if force else 1, max_size=3))])
     # operations ---------------------------------------------------------------------------------
-    hs = G.HistState(comps, [s["orbs"] for s in systems], modes=[k["mode"] for k in kernels], allow=allow)
+    hs = G.HistState(comps, [s["orbs"] for s in systems], modes=[k["mode"] for k in kernels], allow=allow, gp2=gp2)
     ops = []
 
     def draw_store(first=False):
@@ -218,18 +227,21 @@ def st_history(draw, gp2=False, big_ok=True, allow=(), force=None):
             sysl = list(range(nsys))
         if first and deriv_ds and not deriv_all and draw(st.booleans()):
             sysl = [i for i in range(nsys) if systems[i]["orbs"]] or sysl
-        corr = True if (comps[0] != "x" or _pick(draw, 4) < 3) else False
+        corr = True if ("x" not in comps or _pick(draw, 4) < 3) else False
+        excluded = None
         for _ in range(4):
-            if gp2:
-                deriv = False if any(systems[i]["orbs"] for i in sysl) else draw(st.sampled_from([None, False]))
-            else:
-                deriv = draw(st.sampled_from([None, None, True, True, "list", False] if deriv_ds else [None, False, "list"]))
-                if deriv == "list":
-                    deriv = [draw(st.sampled_from([None, True, False])) for _ in range(nk)]
-                if "pol_deriv" not in allow and any(k["mode"] == "POL" for k in kernels):
-                    # excluded region (see sub-check defect_pol_deriv): no derivative data for POL kernels
-                    fl = deriv if isinstance(deriv, list) else [deriv] * nk
-                    deriv = [False if kernels[ik]["mode"] == "POL" else fl[ik] for ik in range(nk)]
+            deriv = draw(st.sampled_from([None, None, True, True, "list", False] if deriv_ds else [None, False, "list"]))
+            if deriv == "list":
+                deriv = [draw(st.sampled_from([None, True, False])) for _ in range(nk)]
+            if gp2 and "gp2_deriv" not in allow:
+                # excluded region (open finding K-C16-gp2-deriv): MOLGP2 never reads derivative data here; a call that
+                # would have read them is issued with get_orb_deriv=False and counted
+                has = [bool(systems[i]["orbs"]) for i in sysl]
+                fl = deriv if isinstance(deriv, list) else [deriv] * nk
+                if all(has) and any((f is None or f is True) for f in fl):
+                    excluded = "gp2_deriv"
+                if any(has):
+                    deriv = False
             if hs.store_valid(sysl, deriv, corr):
                 break
             # make the subset homogeneous in derivative data, then retry
@@ -238,6 +250,8 @@ def st_history(draw, gp2=False, big_ok=True, allow=(), force=None):
         else:
             deriv = False
         op = {"op": "store", "sys": sysl, "deriv": deriv, "corr": corr}
+        if excluded:
+            op["excluded_known"] = excluded
         hs.store(sysl, deriv, corr)
         return op
 
@@ -330,7 +344,7 @@ class Run:
         self.hs = G.HistState([case["kernels"][ik]["component"] for ik in self.order],
                               [s["orbs"] for s in case["systems"]],
                               modes=[case["kernels"][ik]["mode"] for ik in self.order],
-                              allow=case.get("allow", []))
+                              allow=case.get("allow", []), gp2=case["gp2"])
         self.pos = {ik: p for p, ik in enumerate(self.order)}
         self.x0t_list = self.mod.ctrl_x0t(case["ctrl"]["pick"])
         if not case["ctrl"]["reduce"]:
@@ -452,11 +466,13 @@ class Run:
                     ctx.close(dk.dbase_dict[sid][okey], dbase, ("dbase",) + tag, rtol=1e-9, scale=bsc,
                               sid=sid, kernel=ik, orb=list(okey))
                     ctx.event("dcov_checked:%s:nspin%d" % (kc["mode"], s.nspin))
-        if op["corr"] or self.hs.comps[0] == "x":
+        if True:    # reference data are stored by every call that processes at least one kernel
             for i in sysl:
                 sid = "s%d" % i
                 exx, ksb = self.mod.refs(sid)
                 s = self.mod.sys[sid]
+                ctx.check(sid in self.gp.exx_ref_dict and sid in self.gp.ks_baseline_dict, ("refs", "not_stored"), sid=sid,
+                          get_correlation=op["corr"], first_component=self.hs.comps[0])
                 ctx.close(self.gp.exx_ref_dict[sid], exx, ("refs", "exx"), rtol=1e-12,
                           scale=float(np.sum(np.abs(s.val * s.wt))) + 1e-300)
                 ctx.close(self.gp.ks_baseline_dict[sid], ksb, ("refs", "ks_baseline"), rtol=1e-14,
@@ -875,9 +891,16 @@ def run_history(case, ctx, tag):
         had_reset = had_deriv = False
         for op in case["ops"]:
             o = op["op"]
+            if op.get("excluded_known"):
+                ctx.event("excluded_known:" + op["excluded_known"])
             if o == "store":
                 run.op_store(op)
+                if not op["corr"] and case["kernels"][0]["component"] != "x":
+                    ctx.event("region:get_correlation=False_with_non-exchange_first_kernel")
             elif o == "add":
+                for r in op["rxns"]:
+                    if r.get("excluded_known"):
+                        ctx.event("excluded_known:" + r["excluded_known"])
                 run.op_add(op["rxns"])
             elif o == "reset":
                 run.op_reset()
@@ -914,6 +937,10 @@ def run_history(case, ctx, tag):
             ctx.event("has_mode2_reaction")
         if any(r["mode"] == 0 for r in rx):
             ctx.event("has_mode0_reaction")
+            if any(k["mode"] == "POL" and k["component"] != "x" for k in case["kernels"]):
+                ctx.event("region:mode0_reaction_with_POL_c/xc_kernel")
+        if had_deriv and any(k["mode"] == "POL" and k["component"] == "x" for k in case["kernels"]):
+            ctx.event("region:derivative_entries_with_POL_x_kernel")
         for k in ("noise", "noise_factor", "noise_rel_factor", "weight"):
             if any(r.get(k) is not None for r in rx):
                 ctx.event("option=" + k)
@@ -947,15 +974,11 @@ def final_fresh(case, ctx, run, root):
     in a single call and the reactions added in a permuted order must give the same weights (per kernel)."""
     nk = len(case["kernels"])
     order = list(range(nk))[::-1]
-    comps = [case["kernels"][ik]["component"] for ik in order]
     r2 = Run(case, ctx, root, order=order)
     # replay stores per original op (same flags), systems reversed inside each call
     for op in case["ops"]:
         if op["op"] == "store":
             op2 = dict(op, sys=list(op["sys"])[::-1])
-            if comps[0] != "x" and not op["corr"]:
-                ctx.event("fresh_skipped(excluded region: c-kernel first with get_correlation=False)")
-                return
             r2.op_store(op2)
     rx = list(run.lastfit_rxns)
     perm = rng_from(case["seed"] + 17).permutation(len(rx))
@@ -1000,9 +1023,10 @@ RULE = ("history = synthetic data set on disk (2-6 systems, 6-90 points, 2.5% of
         "space 1e-8*cond(Kmm+eps) when cond<=1e8. Non-trivial: last fit has >=3 reactions, >=1 multi-system reaction with "
         "mixed-sign counts, reaction covariance not diagonal (normalised off-diagonal > 1e-3); distinct by data seed + "
         "structure (modes, components, baselines, feature-map classes, operation list, nspin pattern, per-reaction "
-        "mode/entry kinds/counts/options). Excluded by construction (own reproducer sub-checks defect_*): derivative data "
-        "with POL kernels, mode-0 reactions with a POL c/xc kernel, (system, orbital) entries in mode-2 reactions, "
-        "get_correlation=False with a non-exchange first kernel, MOLGP2 with derivative data.")
+        "mode/entry kinds/counts/options). POL kernels with derivative data (incl. nspin 1), POL c/xc kernels with mode-0 "
+        "reactions and get_correlation=False with a non-exchange first kernel are inside the domain (defects fixed in the "
+        "repository). Excluded by construction and counted as excluded_known:* (open findings, own reproducer sub-checks "
+        "defect_*): (system, orbital) entries in mode-2 reactions, MOLGP2 reading derivative data.")
 TOL = {"backward_error_rtol": 1e-9, "prediction_space_rtol": "1e-8 + rounding floor (see rule)",
        "alpha_rtol": "1e-8*cond(Kmm+eps)", "cov_rtol": 1e-10, "base_rtol": 1e-11, "dcov_rtol": 1e-9,
        "likelihood_rtol": "1e-8 of |quad|+|logdet|+n + rounding floor", "metamorphic_rtol": "1e-9*max(1,1e-3*cond)",
@@ -1026,31 +1050,15 @@ def history_gp2(case, ctx):
 
 
 # ------------------------------------------------------------------------------------------------
-# Reproducers of defects found while building the check.  Each lives in a region the generators above
-# exclude by construction (HistState rules, "excluded region" comments), has its own sub-check and therefore
-# its own signature, and runs the shortest script that enters the region.
+# Reproducers of the two OPEN known findings (known_findings.json: K-C16-deriv-mode2, K-C16-gp2-deriv).  Each lives in a
+# region the generators above exclude by construction (HistState rules, "excluded region" comments; the number of
+# excluded draws is reported as `excluded_known:*` events), has its own sub-check and therefore its own signature, and
+# runs the shortest script that enters the region.  The three defects that were fixed in the repository (POL kernel
+# derivatives, DFTKernel.Nctrl for POL, reference data tied to kernel 0) are now inside the domain of `history`; their
+# original cases are kept as regression replays replays/C16/fixed_*.json.
 
 DEFECT_RULE = ("reproducer: short fixed script (store all systems, add 2-4 reactions, fit, likelihood) entering a region that "
-               "`history` excludes by construction because of a recorded defect; oracle and tolerances as in `history`")
-
-
-@subcheck("C16", "defect_pol_deriv",
-          lambda: st_history(allow=("pol_deriv",), big_ok=False,
-                             force={"kernels": [("x", "POL")], "deriv_all": True, "script": "store_deriv",
-                                    "rxn_mode": 0, "want_tuple": True}),
-          quick=8, thorough=60, rule=DEFECT_RULE + "; region: occupation-derivative data with a POL kernel", tolerances=TOL,
-          shrink=False)
-def defect_pol_deriv(case, ctx):
-    run_history(case, ctx, "d1")
-
-
-@subcheck("C16", "defect_pol_nctrl",
-          lambda: st_history(allow=("pol_nctrl",), big_ok=False,
-                             force={"kernels": [("x", "SEP"), ("c", "POL")], "script": "store", "rxn_mode": 0}),
-          quick=8, thorough=60, rule=DEFECT_RULE + "; region: exchange-only (mode 0) reactions while a POL correlation kernel is present",
-          tolerances=TOL, shrink=False)
-def defect_pol_nctrl(case, ctx):
-    run_history(case, ctx, "d2")
+               "`history` excludes by construction because of an open known finding; oracle and tolerances as in `history`")
 
 
 @subcheck("C16", "defect_deriv_mode2",
@@ -1061,15 +1069,6 @@ def defect_pol_nctrl(case, ctx):
           "is decided (the label needs dE_0/df_i, which the training files do not carry)", tolerances=TOL, shrink=False)
 def defect_deriv_mode2(case, ctx):
     run_history(case, ctx, "d3")
-
-
-@subcheck("C16", "defect_c_first",
-          lambda: st_history(allow=("c_first",), big_ok=False,
-                             force={"kernels": [("c", "NPOL"), ("x", "SEP")], "script": "store_nocorr", "rxn_mode": 0}),
-          quick=8, thorough=60, rule=DEFECT_RULE + "; region: store_mol_covs(get_correlation=False) when the first kernel of the "
-          "list is not an exchange kernel (kernel order must not matter)", tolerances=TOL, shrink=False)
-def defect_c_first(case, ctx):
-    run_history(case, ctx, "d4")
 
 
 @subcheck("C16", "defect_gp2_deriv",
